@@ -72,6 +72,31 @@ def run(ctx):
                     keep = os.path.join(ctx.replaydir, "foreign_layout.cfb")
                     shutil.copy(m.group(1), keep)
                 C.add_violation(ctx, sg, msg[:400], "# C02 on a file another writer produced: %s\n# the synthesised image is kept as %s; the API calls are in the message\n" % (msg[:1500], keep))
+            # histories on those layouts in which handles outlive their streams (removed, overwritten, the slot retaken by
+            # a storage or another stream) and are used afterwards; when every handle is gone the live object must
+            # report what the reopened bytes report
+            import glob as _glob
+            sbases = sorted(f for f in _glob.glob(os.path.join(laydir, "L*.cfb")) if "_after" not in f and "_highbits" not in f)
+            if sbases:
+                sdir = ctx.path("stale02")
+                os.makedirs(sdir, exist_ok=True)
+                blist, slist = ctx.path("stale02.bases"), ctx.path("stale02.list")
+                open(blist, "w").write("\n".join(sbases) + "\n")
+                rc2, out2 = C.harness(["damage", "--stale", "--seed", ctx.seed + 15, "--bases", blist, "--count", 600 if quick else 8000, "--max-ops", 14, "--outdir", sdir, "--list", slist], timeout=3000)
+                sst, _, sorc = C.parse_stats(out2)
+                hist["stale-handle-histories-reopened"] = sst.get("stale_histories", 0)
+                total_ops += sst.get("stale_calls", 0)
+                if rc2 != 0:
+                    ctx.undischarged.append("harness damage --stale crashed: " + out2[-300:])
+                for msg in [m for m in sorc if m.startswith("C02 ")][:1]:
+                    m = re.search(r"\[image (\S+) history (\S+)\]", msg)
+                    text, keep = "", None
+                    if m and os.path.exists(m.group(1)):
+                        keep = os.path.join(ctx.replaydir, "stale_handles_live_vs_reopened.cfb")
+                        shutil.copy(m.group(1), keep)
+                        text = open(m.group(2)).read() if os.path.exists(m.group(2)) else ""
+                    C.add_violation(ctx, "stale-handles:live-differs-from-reopened", msg[:400], "# C02: %s\n# final bytes kept as %s; the calls (on a valid foreign layout, opened strictly):\n%s\n" % (msg[:1500], keep, text))
+                shutil.rmtree(sdir, ignore_errors=True)
     finally:
         R.cleanup(ctx)
     # the large file (V3, > 236 FAT sectors, two DIFAT sectors): the bytes must reopen to the live state
